@@ -1,11 +1,11 @@
 package ir
 
 import (
-	"strings"
 	"fmt"
 	"go/types"
 	"reflect"
 	"sort"
+	"strings"
 	"unsafe"
 
 	"golang.org/x/tools/go/ssa"
